@@ -116,6 +116,7 @@ def run(prog, rep):
                             'truncated, wrapped or sign-changed' % (f.pq, producer, bad[0], bad[1], bad[2]), {'instantiation': f.id}, func=f.id)
 
     # ---------------------------------------------------------------- R4.2 ConvertByPolicy
+    _PROG['p'] = prog
     cbp = [f for f in prog.funcs.values() if f.q == 'BitSerializer::Detail::ConvertByPolicy']
     if not cbp:
         raise AnalysisBroken('anchor vanished: BitSerializer::Detail::ConvertByPolicy')
@@ -159,6 +160,8 @@ def run(prog, rep):
         site = 'To(%s -> %s)' % (base_type(t0), base_type(t1))
         problems = []
         assigns = [n for n in live_walk(f) if n['k'] == 'BinaryOperator' and n.get('op') == '=' and (strip(n['c'][0]) or {}).get('d') == tgt]
+        # the success flag(s): bool locals of the function
+        flag_names = set(d['n'] for x in f.walk() if x['k'] == 'DeclStmt' for d in x.get('decls', ()) if f.tu['types'][d['t']].replace('const ', '') == 'bool')
         throws_oor = any(n['k'] == 'CXXThrowExpr' and n.get('tt') == 'std::out_of_range' for n in live_walk(f))
         throws_ia = any(n['k'] == 'CXXThrowExpr' and n.get('tt') == 'std::invalid_argument' for n in live_walk(f))
         if not assigns and not throws_ia:
@@ -176,7 +179,7 @@ def run(prog, rep):
                         if extra is not None:
                             names |= set(x.get('n') for x in f.walk(extra) if x['k'] == 'DeclRefExpr')
                             names |= set(d['n'] for x in f.walk(extra) if x['k'] == 'DeclStmt' for d in x.get('decls', ()))
-                    if 'result' in names:
+                    if names & flag_names:
                         guarded = True
                         break
                 p = f.parent(p)
@@ -246,6 +249,23 @@ def handlers_of(f):
     return out
 
 
+_PROG = {}
+
+
+def is_throw(f, y):
+    """a throw expression, or a call of a library helper that cannot return (its body throws and has no return)"""
+    if y['k'] == 'CXXThrowExpr':
+        return True
+    if y['k'] == 'CallExpr':
+        c = f.callee(y)
+        prog = _PROG.get('p')
+        g = prog.funcs.get(c['id']) if (c is not None and c.get('repo') and prog is not None) else None
+        if g is not None and g.body is not None:
+            ks = [x['k'] for x in g.walk()]
+            return 'CXXThrowExpr' in ks and 'ReturnStmt' not in ks
+    return False
+
+
 def check_convert_by_policy(f):
     problems = []
     tries = [n for n in f.walk() if n['k'] == 'CXXTryStmt']
@@ -278,11 +298,11 @@ def check_convert_by_policy(f):
             if x['k'] == 'IfStmt' and not x.get('cx'):
                 c = child(x, 'cond')
                 names = set(y.get('n') for y in f.walk(c) if y['k'] == 'DeclRefExpr')
-                if pol in names and any(y['k'] == 'CXXThrowExpr' for y in f.walk(child(x, 'then'))):
+                if pol in names and any(is_throw(f, y) for y in f.walk(child(x, 'then'))):
                     guarded_throw = True
         unguarded = False
         for x in f.walk(h):
-            if x['k'] == 'CXXThrowExpr':
+            if is_throw(f, x):
                 p = f.parent(x)
                 g = False
                 while p is not None and p is not h:
@@ -298,7 +318,7 @@ def check_convert_by_policy(f):
     ca = hs.get(None)
     if ca is None:
         problems.append('handlers: no catch(...)')
-    elif not any(x['k'] == 'CXXThrowExpr' for x in f.walk(ca)):
+    elif not any(is_throw(f, x) for x in f.walk(ca)):
         problems.append('handlers: catch(...) swallows unknown exceptions')
     # a throw lexically inside the try whose type is not caught by a typed handler ends in catch(...) and is re-coded
     for x in live_walk(f, block):
